@@ -34,7 +34,7 @@ RULE = (
     "slopes (fit), non-square detector with row != column origins (shift); distinct = (kind, scan, detector, dtype, mask, surface, fit, entry/mode)"
 )
 ASSUMPTIONS = [
-    "the library computes in float32 (config dtype_real); measured/fitted centres are judged at 5e-4 px / 5e-3 px against float64 oracles (measured floors 3e-6 / 1.2e-5)",
+    "the library computes in float32 (config dtype_real); measured/fitted centres are judged at 1e-3 px / 1e-2 px against float64 oracles (measured floors 5e-6 / 4.6e-5 over 50 000 thorough cases)",
     "intensities are strictly positive and masks keep at least a quarter of the detector, so every pattern has positive mass (finite mask all True, as in the property's domain)",
     "exact-surface fits are only judged for float inputs (integer counts cannot put a CoM exactly on a plane) and the parabola fit only for scans >= 3x3 (full-rank design)",
     "shift-to-corner is judged only for exactly integer fitted origins lying on the detector, target coordinate (0,0)",
@@ -53,11 +53,11 @@ REQUIRED_COUNTERS = [
 ]
 EXHAUSTIVE = {"quick": False, "thorough": False}
 
-TOL_COM = 5e-4  # px, float32 weighted means vs float64 oracle (measured floor 3e-6 on detectors <= 20 px; a row/column mix-up is >= 0.5 px)
-TOL_PATH = 5e-4  # px, two float32 evaluations of the same mean (measured: 0 between the dataset paths, 4e-6 between the two models)
+TOL_COM = 1e-3  # px, float32 weighted means vs float64 oracle (measured floor 5e-6 on detectors <= 20 px; a row/column mix-up is >= 0.5 px)
+TOL_PATH = 1e-3  # px, two float32 evaluations of the same mean (measured: 0 between the dataset paths, 6e-6 between the two models)
 TOL_BATCH = 2e-5  # px / relative, same code with a different batch shape (measured: bitwise equal)
-TOL_FIT = 5e-3  # px, fitted surface vs the exact surface it was fitted to (float32 PCA / float32 storage; measured floor 1.2e-5)
-TOL_FIT64 = 1e-6  # px, fit_origin on exact float64 planes (curve_fit in float64)
+TOL_FIT = 1e-2  # px, fitted surface vs the exact surface it was fitted to (float32 PCA / float32 storage; measured floor 4.6e-5)
+TOL_FIT64 = 1e-6  # px, fit_origin on exact float64 planes (least squares in float64)
 TOL_ROLL = 5e-4  # relative to max|pattern| (float32 grid un-normalisation in grid_sample; measured floor 9e-7; an off-by-one roll is O(1))
 
 DTYPES = ["float32", "float32", "float64", "uint16", "int32"]
